@@ -129,6 +129,8 @@ type Sim struct {
 	// and tickers elsewhere fire while it is stuck at exactly that point.
 	Freeze      bool
 	FreezeCount int
+	Active      time.Duration
+	Lead        time.Duration // simulated time a harness let pass before the program started (not counted as covered)
 
 	// granularity yields enabled for these package ids
 	stmtOn [pkgCount]bool
@@ -712,6 +714,7 @@ func (s *Sim) Run(root func()) string {
 		pg := s.parked[pick]
 		delete(s.parked, pick)
 		s.Steps++
+		s.Active = now.Sub(s.Start) // simulated time at the last scheduling step (idle horizons at the end of a run are not "covered" time)
 		s.sinceProgress++
 		GlobalSteps.Add(1)
 		if pick != s.last {
